@@ -5,7 +5,7 @@
    strict_total ltb := irreflexive, transitive, incomparable elements are equal (the dtype's < ; NaN-free) *)
 From Coq Require Import ZArith List Bool.
 From EV Require Import Res Arr Spans SpansSpec SpansBase SpansRef SpansField SpansKernels SpansIndexed SpansOrder
-  SpansReduce SpansMerge SpansIndexedReduce SpansMain SpansSorted SpansFilter.
+  SpansReduce SpansMerge SpansIndexedReduce SpansMain SpansSorted SpansFilter SpansRle SpansRleProofs SpansRleReduce.
 Import ListNotations.
 Open Scope Z_scope.
 
@@ -230,3 +230,79 @@ Theorem check_if_sorted_correct : forall (A:Type) (ltb:A -> A -> bool) (d:A), st
   check_if_sorted_for_multi_fields ltb fields = Ok (rows_sortedb ltb (rows_of d fields n)).
 Proof. exact (@check_if_sorted_ref). Qed.
 Print Assumptions check_if_sorted_correct.
+
+(* ---- 12. run-length encoded columns (large inputs of the correspondence run; Model/SpansRle.v) ------------- *)
+(* expand [(v0,n0);(v1,n1);…] = v0 × n0 ++ v1 × n1 ++ … (adjacent runs may carry equal values, n <= 0 = no rows);
+   spans_of_rle works on the encoding only.  These theorems make the answer computed on the encoding the answer of
+   the statement-level models on the expanded column, for every encoding (full). *)
+Theorem spans_rle_correct : forall (A:Type) (neqb:A -> A -> bool) (d:A) (rl:list (A * Z)),
+  neq_test neqb -> is_spans d (expand rl) (spans_of_rle neqb rl).
+Proof. exact (@spans_rle_correct_pf). Qed.
+Print Assumptions spans_rle_correct.
+Theorem spans_rle_field : forall (A:Type) (neqb:A -> A -> bool) (rl:list (A * Z)),
+  neq_test neqb -> get_spans_for_field neqb (expand rl) = spans_of_rle neqb rl.
+Proof. exact (@spans_rle_field_pf). Qed.
+Print Assumptions spans_rle_field.
+Theorem field_get_spans_rle_num : forall r, field_get_spans (ColNum (expand r)) = Ok (spans_of_rle Z_neqb r).
+Proof. exact field_get_spans_rle_num_pf. Qed.
+Print Assumptions field_get_spans_rle_num.
+Theorem field_get_spans_rle_fixed : forall r, field_get_spans (ColFixed (expand r)) = Ok (spans_of_rle bytes_neqb r).
+Proof. exact field_get_spans_rle_fixed_pf. Qed.
+Print Assumptions field_get_spans_rle_fixed.
+Theorem field_get_spans_rle_indexed : forall indices values (r:list (list Z * Z)),
+  valid_indexed indices values -> indexed_rows indices values = expand r ->
+  field_get_spans (ColIndexed indices values) = Ok (spans_of_rle bytes_neqb r).
+Proof. exact field_get_spans_rle_indexed_pf. Qed.
+Print Assumptions field_get_spans_rle_indexed.
+(* Session.get_spans(fields=(Field, Field)) merges whatever the two fields return … *)
+Theorem session_fields_rle : forall c0 c1 s0 s1, field_get_spans c0 = Ok s0 -> field_get_spans c1 = Ok s1 ->
+  session_get_spans_fields c0 c1 = get_spans_for_2_fields_by_spans s0 s1.
+Proof. exact session_fields_rle_pf. Qed.
+Print Assumptions session_fields_rle.
+(* … and for equally long columns that merge is what the 2-array kernel returns on the expanded columns: THE span
+   list of the zipped column *)
+Theorem spans_rle_2_arrays : forall (A B:Type) (neqbA:A -> A -> bool) (neqbB:B -> B -> bool) (dA:A) (dB:B)
+  (r0:list (A * Z)) (r1:list (B * Z)),
+  neq_test neqbA -> neq_test neqbB -> rle_len r0 = rle_len r1 ->
+  get_spans_for_2_fields neqbA neqbB (expand r0) (expand r1) = spans_of_rle_2 neqbA neqbB r0 r1 /\
+  exists sp, spans_of_rle_2 neqbA neqbB r0 r1 = Ok sp /\ is_spans (dA, dB) (combine (expand r0) (expand r1)) sp.
+Proof. exact (@spans_rle_2_arrays_pf). Qed.
+Print Assumptions spans_rle_2_arrays.
+Example spans_rle_example : spans_of_rle Z_neqb [(7, 4194304); (7, 1); (8, 0); (9, 4194303)] = [0; 4194305; 8388608].
+Proof. vm_compute. reflexivity. Qed.
+
+(* ---- 13. reductions of a run-length encoded column -------------------------------------------------------- *)
+(* rle_slice rl a b encodes rows a..b-1 (expand_slice); rle_*_ref answer every span from the values of the non-empty runs
+   of that slice.  Full: for every encoding and every span list they ARE the reference reductions on the expanded
+   column … *)
+Theorem rle_slice_correct : forall (A:Type) (rl:list (A * Z)) a b, expand (rle_slice rl a b) = slice (expand rl) a b.
+Proof. exact (@expand_slice). Qed.
+Print Assumptions rle_slice_correct.
+Theorem rle_reductions_are_references : forall (A:Type) (ltb:A -> A -> bool) (d:A) sp (rl:list (A * Z)),
+  rle_first_ref d sp rl = first_ref d sp (expand rl) /\
+  rle_last_ref d sp rl = last_ref d sp (expand rl) /\
+  rle_min_ref ltb d sp rl = min_ref ltb d sp (expand rl) /\
+  rle_max_ref ltb d sp rl = max_ref ltb d sp (expand rl) /\
+  rle_index_of_min_ref ltb sp rl = index_of_min_ref ltb sp (expand rl) /\
+  rle_index_of_max_ref ltb sp rl = index_of_max_ref ltb sp (expand rl).
+Proof.
+  intros A ltb d sp rl.
+  exact (conj (rle_first_ref_ok d sp rl) (conj (rle_last_ref_ok d sp rl) (conj (rle_min_ref_ok ltb d sp rl)
+        (conj (rle_max_ref_ok ltb d sp rl) (conj (rle_index_of_min_ref_ok ltb sp rl) (rle_index_of_max_ref_ok ltb sp rl)))))).
+Qed.
+Print Assumptions rle_reductions_are_references.
+(* … hence, on valid spans, what the statement-level kernels return on the expanded column *)
+Theorem apply_spans_rle : forall (A:Type) (ltb:A -> A -> bool) (d zero:A), strict_total ltb ->
+  forall sp (rl:list (A * Z)), valid_spans (rle_len rl) sp ->
+  apply_spans_first zero sp (expand rl) = Ok (rle_first_ref d sp rl) /\
+  apply_spans_last zero sp (expand rl) = Ok (rle_last_ref d sp rl) /\
+  apply_spans_min ltb zero sp (expand rl) = Ok (rle_min_ref ltb d sp rl) /\
+  apply_spans_max ltb zero sp (expand rl) = Ok (rle_max_ref ltb d sp rl) /\
+  apply_spans_index_of_min ltb sp (expand rl) = Ok (rle_index_of_min_ref ltb sp rl) /\
+  apply_spans_index_of_max ltb sp (expand rl) = Ok (rle_index_of_max_ref ltb sp rl).
+Proof. exact (@apply_spans_rle_pf). Qed.
+Print Assumptions apply_spans_rle.
+Example rle_min_example :
+  rle_min_ref Z.ltb 0 [0; 4194304; 8388609] [(5, 4194303); (1, 2); (5, 4194303); (0, 1)] = [1; 0] /\
+  rle_index_of_min_ref Z.ltb [0; 4194304; 8388609] [(5, 4194303); (1, 2); (5, 4194303); (0, 1)] = [4194303; 8388608].
+Proof. vm_compute. split; reflexivity. Qed.
